@@ -1,6 +1,7 @@
 #!/bin/bash
 # tools/regress.sh : sensitivity regression. Every patch in mutants/ and seeded/ must make its property's quick
-# check exit 1; every quick check must exit 0 on the clean tree. Prints one line per patch.
+# check exit 1; every patch in legit/ (a change the property allows) must leave it at exit 0; every quick check must
+# exit 0 on the clean tree. Prints one line per patch.
 cd "$(dirname "$0")/.."
 fail=0
 for p in mutants/*.patch seeded/*/patch.diff; do
@@ -8,6 +9,12 @@ for p in mutants/*.patch seeded/*/patch.diff; do
   [ "$(basename $p)" = "C18-m3-racy-latch.patch" ] && extra="VERIF_MIRI=1 VERIF_MIRI_SEEDS=8" || extra=""
   out=$(env $extra VERIF_MIN_REPLAYS=${REGRESS_MIN_REPLAYS:-0} VERIF_SCALE=${REGRESS_SCALE:-1} tools/mutant_wt.sh "$p" "$id" 2>&1 | tail -1)
   case "$out" in *rc=1) echo "caught  $p";; *) echo "MISSED  $p ($out)"; fail=1;; esac
+done
+# changes the properties allow (legit/<ID>-*.diff): the check of <ID> must stay quiet (exit 0) on each
+for p in legit/*.diff; do
+  id=$(basename "$p" | cut -c1-3)
+  out=$(VERIF_MIN_REPLAYS=0 VERIF_SCALE=${REGRESS_SCALE:-1} tools/mutant_wt.sh "$p" "$id" 2>&1 | tail -1)
+  case "$out" in *rc=0) echo "quiet   $p";; *) echo "ALARM   $p ($out)"; fail=1;; esac
 done
 # scratch worktree and its build output are no longer needed
 wt="${MUTWT:-/tmp/wf-mutwt}"; tag=$(echo "$wt" | md5sum | cut -c1-8)
